@@ -24,7 +24,7 @@ func (r *Rand) Intn(n int) int {
 	}
 	return int(r.U64() % uint64(n))
 }
-func (r *Rand) Bool() bool       { return r.U64()&1 == 1 }
+func (r *Rand) Bool() bool        { return r.U64()&1 == 1 }
 func (r *Rand) Chance(p int) bool { return r.Intn(100) < p }
 
 var allKinds = []Kind{Int32, Int64, Uint32, Uint64, Sint32, Sint64, Bool, Enum, Fixed32, Sfixed32, Float, Fixed64, Sfixed64, Double, String, Bytes}
@@ -205,7 +205,24 @@ func Matrix(full bool) []*Schema {
 		{Num: 40000006, IsMsg: true, Msg: 13, Shape: Map, Key: Uint32},
 		{Num: 7, Kind: Sfixed64, Shape: Repeated, Packed: true},
 	}}
-	s.Msgs = []Msg{m0, m1, m2, m3, m4, m5, m6, m7, m8, m9, m10, m11, m12, m13}
+	// M14: NO oneof, declaration order the reverse of number order, and the fields that need an entry in the
+	// generated dependency tables (message / enum / map typed, of DIFFERENT types) interleaved with scalars: whatever
+	// reorders the generator's field list for one purpose (marshal order) must not leak into another (type tables)
+	m14 := Msg{Name: "M14", Fields: []Field{
+		{Num: 12, IsMsg: true, Msg: 1, Shape: Singular},
+		{Num: 11, Kind: Enum, Shape: Singular},
+		{Num: 10, IsMsg: true, Msg: 11, Shape: Repeated},
+		{Num: 9, Kind: Int32, Shape: Singular},
+		{Num: 8, IsMsg: true, Msg: 12, Shape: Map, Key: String},
+		{Num: 7, Kind: Enum, Shape: Repeated, Packed: true},
+		{Num: 6, IsMsg: true, Msg: 14, Shape: Singular},
+		{Num: 5, Kind: Enum, Shape: Map, Key: Int64},
+		{Num: 4, Kind: String, Shape: Repeated},
+		{Num: 3, IsMsg: true, Msg: 13, Shape: Singular},
+		{Num: 2, IsMsg: true, Msg: 1, Shape: Map, Key: Bool},
+		{Num: 1, Kind: Bytes, Shape: Singular},
+	}}
+	s.Msgs = []Msg{m0, m1, m2, m3, m4, m5, m6, m7, m8, m9, m10, m11, m12, m13, m14}
 	out := []*Schema{s}
 	if full {
 		// every key kind x every value kind (+ message), 3 schemas to keep packages small
@@ -535,13 +552,13 @@ func Nested() *descriptorpb.FileDescriptorProto {
 			{Name: proto.String("MEntry"), Field: []*descriptorpb.FieldDescriptorProto{f("key", 1, opt, str, ""), f("value", 2, opt, i32, "")}}}}
 	return &descriptorpb.FileDescriptorProto{
 		Name: proto.String("verifcorpus/nest/nest.proto"), Package: proto.String("vc.nest"), Syntax: proto.String("proto3"),
-		Options:     &descriptorpb.FileOptions{GoPackage: proto.String("github.com/cosmos/cosmos-proto/internal/verifcorpus/nest")},
+		Options: &descriptorpb.FileOptions{GoPackage: proto.String("github.com/cosmos/cosmos-proto/internal/verifcorpus/nest")},
 		MessageType: []*descriptorpb.DescriptorProto{outer, other, flat, resource,
 			// a message WITHOUT fields used as a namespace for nested declarations (two levels)
 			{Name: proto.String("Namespace"), NestedType: []*descriptorpb.DescriptorProto{
 				reservedMsg("Decl"),
 				{Name: proto.String("Sub"), NestedType: []*descriptorpb.DescriptorProto{reservedMsg("Deep")}}}}},
-		EnumType:    []*descriptorpb.EnumDescriptorProto{enum("Top", "TOP_ZERO", "TOP_ONE")},
+		EnumType: []*descriptorpb.EnumDescriptorProto{enum("Top", "TOP_ZERO", "TOP_ONE")},
 	}
 }
 
@@ -574,6 +591,32 @@ func Dup() []*Schema {
 	return []*Schema{a, b}
 }
 
+// constructMatrix: one message holding one instance of every construct family for which a generator could emit
+// something once per Go package instead of once per file (helpers, sort functions, pooled buffers, cached
+// descriptors): maps over every key-kind family, packed and unpacked lists, oneofs of several kinds, bytes. Every
+// file of the same-package corpora gets its own copy, so "emitted once per package / per plugin run" shows either
+// as content that depends on what is co-generated (C13) or as a package that does not compile (C12).
+func constructMatrix(name string) Msg {
+	return Msg{Name: name, OneofNames: []string{"pick"}, Fields: []Field{
+		{Num: 1, Kind: String, Shape: Map, Key: Bool},
+		{Num: 2, Kind: Int64, Shape: Map, Key: Int32},
+		{Num: 3, Kind: Bytes, Shape: Map, Key: Uint64},
+		{Num: 4, Kind: Double, Shape: Map, Key: String},
+		{Num: 5, Kind: Bool, Shape: Map, Key: Sint64},
+		{Num: 6, Kind: Float, Shape: Map, Key: Fixed32},
+		{Num: 7, Kind: Sint32, Shape: Map, Key: Sfixed64},
+		{Num: 8, Kind: Bool, Shape: Repeated, Packed: true},
+		{Num: 9, Kind: Sint32, Shape: Repeated, Packed: true},
+		{Num: 10, Kind: Fixed64, Shape: Repeated, Packed: false},
+		{Num: 11, Kind: Bytes, Shape: Repeated},
+		{Num: 12, Kind: Bool, Shape: Oneof, Group: 0},
+		{Num: 13, Kind: Bytes, Shape: Oneof, Group: 0},
+		{Num: 14, Kind: Sint64, Shape: Oneof, Group: 0},
+		{Num: 15, Kind: Float, Shape: Singular},
+		{Num: 16, Kind: Bytes, Shape: Singular},
+	}}
+}
+
 // SamePkg: five files in ONE Go package, the last importing the other four (same-package imports are
 // initialised by file_<dep>_proto_init() calls inside the importer's init function).
 func SamePkg() []*Schema {
@@ -589,7 +632,8 @@ func SamePkg() []*Schema {
 		return sc
 	}
 	for i, n := range []string{"spa", "spb", "spc", "spd"} {
-		out = append(out, mk(n, []Msg{{Name: "D" + string(rune('A'+i)), Fields: []Field{{Num: 1, Kind: allKinds[i*3], Shape: Singular}, {Num: 2, Kind: String, Shape: Repeated}}}}, nil))
+		out = append(out, mk(n, []Msg{{Name: "D" + string(rune('A'+i)), Fields: []Field{{Num: 1, Kind: allKinds[i*3], Shape: Singular}, {Num: 2, Kind: String, Shape: Repeated}}},
+			constructMatrix("K" + string(rune('A'+i)))}, nil))
 	}
 	out = append(out, mk("spe", []Msg{{Name: "Main", Fields: []Field{
 		{Num: 1, IsMsg: true, Extern: "vc.sp.DA", Shape: Singular},
@@ -731,7 +775,8 @@ func SamePkgSplit() []*Schema {
 		return sc
 	}
 	for i, n := range []string{"sqb", "sqc", "sqd", "sqe"} {
-		out = append(out, mk(n, []Msg{{Name: "Q" + string(rune('A'+i)), Fields: []Field{{Num: 1, Kind: allKinds[i*3+1], Shape: Singular}, {Num: 2, Kind: Enum, Shape: Repeated, Packed: true}}}},
+		out = append(out, mk(n, []Msg{{Name: "Q" + string(rune('A'+i)), Fields: []Field{{Num: 1, Kind: allKinds[i*3+1], Shape: Singular}, {Num: 2, Kind: Enum, Shape: Repeated, Packed: true}}},
+			constructMatrix("KQ" + string(rune('A'+i)))},
 			map[bool][]string{true: nil, false: {"verifcorpus/sq/sqb.proto"}}[n == "sqb"]))
 	}
 	out = append(out, mk("sqa", []Msg{{Name: "First", Fields: []Field{
